@@ -63,6 +63,10 @@ def fam_loops():
     out.append(("lp_while_continue", _loop("cnt = 0\nacc = 0\nwhile cnt < 4:\n    cnt = cnt + 1\n    if cnt == d0.Setting:\n        continue\n    acc = acc + cnt\nd1.Setting = acc")))
     out.append(("lp_list", _loop("acc = 0\nfor val in [3, 5, 9]:\n    acc = acc + val\n    d0.Setting = acc")))
     out.append(("lp_list_index", _loop("vals = [4, 8, 15, 16]\nvi = d0.Setting\nif vi >= 0 and vi < 4:\n    d1.Setting = vals[vi]\nelse:\n    d1.Setting = 0 - 1")))
+    # `continue` of an outer loop placed after another loop has been compiled (an inner loop / a called function with a loop)
+    out.append(("lp_continue_after_inner_loop", _loop("ia = 0\nwhile ia < 3:\n    ia = ia + 1\n    for ib in range(2):\n        d1.Setting = ib + ia\n    if d0.Setting > ia:\n        continue\n    d2.Setting = ia")))
+    out.append(("lp_continue_after_call_with_loop", HEADER + "def sweep(xa):\n    for ib in range(2):\n        d1.Setting = ib + xa\n    return xa + 1\nwhile True:\n    ia = 0\n    while ia < 3:\n        ia = sweep(ia)\n"
+                "        if d0.Setting > ia:\n            continue\n        d2.Setting = sweep(ia)\n    yield_()\n"))
     out.append(("lp_siblings", _loop("vn = d0.Setting\nacc = 0\nfor ia in range(2):\n    for ib in range(2):\n        tx = ib + vn\n        acc = acc + tx\n    for ic in range(2):\n        ty = ic * 2\n        acc = acc + ty + ia\nd1.Setting = acc")))
     out.append(("lp_alias_copy", _loop("va = d0.Setting\nvb = va\nvc = d1.Setting + 1\nvd = vc * 2\nd2.Setting = vb + vd")))
     out.append(("lp_carried", _loop("acc = d0.Setting\nprev = 1\nfor idx in range(3):\n    nxt = acc + prev\n    prev = acc\n    acc = nxt\nd1.Setting = acc + prev")))
